@@ -139,12 +139,49 @@ def unknown_ids(repo: Repo, rep, P: str):
         return
     loop = loops[0]
     tests = [n for n in g.nodes if n.kind == "test" and "callable(" in norm(n.ast)]
+    none_test = None
     if not tests:
-        rep.violation(f"{P}.R1", construct, "if callable(method): … else: …", "handler presence is no longer tested: an id without a handler fails",
-                      f"{rel}:{fn.lineno}")
+        # the look-up result itself is tested: `h = getattr(self, name, None)` (possibly filtered by callable) … `if h is None:` / `if h:`
+        from ..packed import single_defs as _sd4
+        d4 = _sd4(fn)
+
+        def from_lookup(nm: str, depth: int = 0) -> bool:
+            v = d4.get(nm)
+            if v is None or depth > 3:
+                return False
+            txt = norm(v)
+            if "getattr(self" in txt and ("None" in txt or "callable(" in txt):
+                return True
+            return any(isinstance(x, ast.Name) and x.id != nm and from_lookup(x.id, depth + 1) for x in ast.walk(v))
+        for n in g.nodes:
+            if n.kind != "test":
+                continue
+            a = n.ast
+            neg_ = False
+            while isinstance(a, ast.UnaryOp) and isinstance(a.op, ast.Not):
+                a, neg_ = a.operand, not neg_
+            if isinstance(a, ast.Compare) and len(a.ops) == 1 and isinstance(a.ops[0], (ast.Is, ast.IsNot)) and norm(a.comparators[0]) == "None" \
+                    and isinstance(a.left, ast.Name) and from_lookup(a.left.id):
+                none_test = (n, a.left.id, (isinstance(a.ops[0], ast.Is)) != neg_)      # (node, handler variable, test true ⇒ no handler)
+            elif isinstance(a, ast.Name) and from_lookup(a.id):
+                none_test = (n, a.id, neg_)
+            if none_test:
+                break
+    if not tests and none_test is None:
+        bare = [c for c in ast.walk(fn) if isinstance(c, ast.Call) and norm(c.func) == "getattr" and len(c.args) == 2 and norm(c.args[0]) == "self"]
+        if bare and not any(isinstance(x, ast.Try) for x in ast.walk(loop.ast)):
+            rep.violation(f"{P}.R1", construct, norm(bare[0]), "handler presence is no longer tested: an id without a handler fails (getattr without a default)",
+                          f"{rel}:{fn.lineno}")
+        else:
+            rep.inconclusive(f"{P}.R1", construct, "if callable(method): … else: …", "how the reader tests that an id has a handler is not recognised",
+                             f"{rel}:{fn.lineno}")
         return
-    t = tests[0]
-    neg = norm(t.ast).startswith("not ")
+    if tests:
+        t = tests[0]
+        neg = norm(t.ast).startswith("not ")
+    else:
+        t = none_test[0]
+        neg = none_test[2]
     miss_label = "true" if neg else "false"
     miss = [m for m, lab in g.succ[t.id] if lab == miss_label]
     # walk the no-handler branch until the loop head: only non-raising, non-exiting statements allowed
@@ -186,7 +223,7 @@ def unknown_ids(repo: Repo, rep, P: str):
                  [m for m, lab in g.succ[loop.id] if lab not in ("exc", "exit", "false", "done", "orelse")]
     body_nodes = {id(x) for st in loop.ast.body for x in ast.walk(st)}
     body_entry = [m for m in body_entry if g.nodes[m].ast is not None and id(g.nodes[m].ast) in body_nodes] or body_entry
-    hv = None
+    hv = None if tests else none_test[1]
     for c in ast.walk(t.ast):
         if isinstance(c, ast.Call) and norm(c.func) == "callable" and c.args and isinstance(c.args[0], ast.Name):
             hv = c.args[0].id
@@ -322,7 +359,12 @@ def _chunk_iterator(repo: Repo, cf: ast.FunctionDef) -> str:
     ys = [n for n in ast.walk(lp) if isinstance(n, ast.Yield)]
     if len(ys) != 1 or not isinstance(ys[0].value, ast.Tuple) or len(ys[0].value.elts) != 2:
         return "?yield shape"
-    if [norm(e) for e in ys[0].value.elts] != [f"{c}.getname()", f"{c}.read()"]:
+    from ..packed import single_defs as _sd_ci, resolve_names as _rn_ci
+    _ldefs = {k_: v_ for k_, v_ in _sd_ci(ast.Module(body=lp.body, type_ignores=[])).items() if k_ != c}
+    yielded = [norm(_rn_ci(e, _ldefs)) for e in ys[0].value.elts]          # `name = c.getname(); data = c.read(); yield name, data`
+    if yielded != [f"{c}.getname()", f"{c}.read()"]:
+        if any(isinstance(e, ast.Name) and e.id not in _ldefs for e in ys[0].value.elts):
+            return f"?{norm(ys[0])}: what is yielded is not followed"
         return f"{norm(ys[0])} is yielded instead of ({c}.getname(), {c}.read())"
     skips = [n for n in ast.walk(lp) if isinstance(n, ast.Call) and norm(n.func) == f"{c}.skip"]
     if not skips or inline.pos(skips[0]) < inline.pos(ys[0]):
@@ -521,13 +563,17 @@ def termination(repo: Repo, rep, P: str):
     rw = repo.own_method(rd, "rewind")
     s = norm(rw)
     wc = inline.normalize(repo, None, repo.func("rv.lib.iff", "write_chunk"), sf=repo.module("rv.lib.iff"))
-    hdr = 4
+    hdr = None
     for n in walk_no_nested(wc):
         if isinstance(n, ast.Call) and norm(n.func) in ("struct.pack", "pack") and n.args:
             try:
-                hdr = 4 + struct.calcsize(repo.fold(n.args[0]))
+                hdr = 4 + struct.calcsize(repo.fold(n.args[0], sf=repo.module("rv.lib.iff")))
             except (NotConst, struct.error):
                 pass
+    if hdr is None:
+        rep.inconclusive(f"{P}.R3", f"{rd.file.rel}:Reader.rewind", norm(wc)[:160], "the size of the chunk header write_chunk emits was not derived",
+                         f"{rd.file.rel}:{rw.lineno}")
+        return
     from .. import alg
     from ..packed import single_defs, resolve_names
     rwn = inline.normalize(repo, rd, rw)
